@@ -4,6 +4,7 @@
         fail-closed AST scan of all registered payloads (regenerated from /repo on every run). *)
 From Coq Require Import List ZArith Bool Arith.
 From YV Require Import Common.Corr Model.Eval Lemmas.EvalFrame Lemmas.EvalHost Gen.Mutations.
+From YV Require Model.Convert Lemmas.ConvertSpec.
 Import ListNotations.
 
 (* For ANY host context chain, any context c of it handed to evaluate, any data, any expression:
@@ -34,6 +35,12 @@ Definition row_ok (r : mrow) : bool :=
 Theorem C09_no_mutating_payload :
   forall r, In r rows -> row_ok r = true.
 Proof. apply forallb_forall. vm_compute. reflexivity. Qed.
+
+(* With yaql.convertInputData on (the default) the value bound to `$` is the deep frozen copy of the
+   host's data: it contains no mutable container at any depth, so no payload can reach - let alone
+   change - a host list, dict or set through it (Model/Convert.v is the model of C10). *)
+Theorem C09_input_frozen : forall d, Convert.frozenb (Convert.convert_input d) = true.
+Proof. exact ConvertSpec.convert_input_frozen. Qed.
 
 (* the scan is not empty: it saw the payloads and found the (benign) mutations that exist *)
 Example C09_scan_nonempty : Nat.leb 200 payloads_scanned && Nat.leb 10 (length rows) = true.
